@@ -9,9 +9,13 @@ declare -A CHECKS=(
  ["format keeps the whole line"]="C10" ["delimit the @rx operand"]="C11 C12" ["find the id action"]="C11"
  ["renumber-tests only processes"]="C15" ["a chain offset beyond"]="C16" ["compare fails when"]="C16"
  ["read lines of any length"]="C17" ["number test IDs"]="C13" ["update-copyright finds"]="C14"
- ["self-update verifies the checksum"]="C20" ["does not panic"]="C20")
+ ["self-update verifies the checksum"]="C20" ["does not panic"]="C20" ["cmdline block acts as a single unit"]="C04"
+ ["commented out SecRule"]="C11" ["separator of an empty replacement list"]="C10" ["close the configuration file"]="C08"
+ ["trailing carriage returns"]="C09")
+ONLY="${REVERTS_ONLY:-}"
 cd /repo || exit 2
 git log --format='%h %s' | grep ' fix: ' | while read -r h subj; do
+  [ -n "$ONLY" ] && ! echo "$subj" | grep -qE "$ONLY" && continue
   for key in "${!CHECKS[@]}"; do
     case "$subj" in *"$key"*)
       D="$(mktemp -d /var/tmp/revert.XXXXXX)"
